@@ -375,6 +375,9 @@ pub fn decode(img: &Image, o: &DecodeOpts) -> Value {
         "nf": g.nfats, "mir": g.mirroring(), "act": g.active_fat(),
         "rootn": g.root_entries, "rootc": clamp_i(g.root_cluster), "bps": g.bps, "spc": g.spc, "rsvd": g.rsvd,
         "fis": g.fsinfo_sector, "bks": g.backup_sector, "media": g.media,
+        // label and volume id of the boot sector (the id as two 16-bit halves: TLC integers are 32-bit signed)
+        "lab": img.vec_at(if g.layout32 { 71 } else { 43 }, 11),
+        "vid": [img.u16_at(if g.layout32 { 67 } else { 39 }), img.u16_at(if g.layout32 { 69 } else { 41 })],
     });
     let status = img.u8_at(g.status_off());
     let fi = if g.layout32 {
